@@ -1,12 +1,16 @@
 (* C04 - the guard skeleton of kmip/services/server/engine.py the lifecycle model was written against.
-   One entry per event, in source order, in the format of translate/gen_lifecycle.py:
+   One entry per event, in the normal form of translate/gen_lifecycle.py (N1-N5 there):
      lookup <uid expr> as <policy operation> | raise <exception class> | set <state assignment> | let <binding> |
-     crypto <CryptographyEngine method> | delete | commit | return, each followed by the chain of enclosing
-     conditions (innermost first; "unless c" = the else branch of "if c").
-   HAND-MAINTAINED: when engine.py changes, GuardTie.guards_as_modelled breaks; re-read the handler, update
-   Model.v, then this table.  The comment above each handler says which model clause mirrors it.
+     crypto <CryptographyEngine method> | delete | commit | return | break, followed by " & literal" for every
+     condition under which control reaches the event (complements of earlier terminating guards included;
+     locals bound once to an attribute read are written out; "not (e)" = e is false; <for ..>, <try>, <except ..>
+     mark loop bodies and handlers).
+   HAND-MAINTAINED: when engine.py changes its behaviour, GuardTie.guards_as_modelled breaks; re-read the handler,
+   update Model.v, then this table.  The comment above each handler says which model clause mirrors it.
    Last brought up to date for /repo commits d24c06a (MAC type guard), 3da5f5b (Get: wrapping parameters and
-   wrapped-object type), 229c9a2 (DeriveKey: cryptographic parameters required). *)
+   wrapped-object type), 229c9a2 (DeriveKey: cryptographic parameters required); format changed to reaching
+   conditions so that behaviour-preserving rewrites (guard clause <-> if/else, hoisted attribute reads, dead
+   initialisers, conditional expressions, De Morgan, nested if <-> and) give the same table. *)
 From Coq Require Import List String.
 Import ListNotations.
 Open Scope string_scope.
@@ -15,134 +19,124 @@ Definition expected_guards : list (string * list string) := [
   (* Model.step, Activate: lookup; ost = None -> RNoState IllegalOperation; st <> PreActive -> RState PermissionDenied; set Active *)
   ("_process_activate", [
     "lookup unique_identifier as enums.Operation.ACTIVATE";
-    "let object_type = managed_object._object_type";
-    "raise IllegalOperation <- if not hasattr(managed_object, 'state')";
-    "raise PermissionDenied <- if managed_object.state != enums.State.PRE_ACTIVE";
-    "set managed_object.state = enums.State.ACTIVE";
-    "commit ";
-    "return "]);
+    "raise IllegalOperation & not (hasattr(managed_object, 'state'))";
+    "raise PermissionDenied & hasattr(managed_object, 'state') & not (managed_object.state == enums.State.PRE_ACTIVE)";
+    "set managed_object.state = enums.State.ACTIVE & hasattr(managed_object, 'state') & managed_object.state == enums.State.PRE_ACTIVE";
+    "commit & hasattr(managed_object, 'state') & managed_object.state == enums.State.PRE_ACTIVE";
+    "return & hasattr(managed_object, 'state') & managed_object.state == enums.State.PRE_ACTIVE"]);
   (* Model.step, Revoke (the missing-reason-code refusal is outside the model: every modelled Revoke carries a code): lookup; RNoState; KEY_COMPROMISE -> Compromised / DestroyedCompromised; otherwise st <> Active -> RState IllegalOperation, else Deactivated *)
   ("_process_revoke", [
-    "raise InvalidField <- unless payload.revocation_reason and payload.revocation_reason.revocation_code";
-    "lookup unique_identifier as enums.Operation.REVOKE";
-    "let object_type = managed_object._object_type";
-    "raise IllegalOperation <- if not hasattr(managed_object, 'state')";
-    "set managed_object.state = enums.State.DESTROYED_COMPROMISED <- if managed_object.state == enums.State.DESTROYED <- if revocation_code.value is enums.RevocationReasonCode.KEY_COMPROMISE";
-    "set managed_object.state = enums.State.COMPROMISED <- unless managed_object.state == enums.State.DESTROYED <- if revocation_code.value is enums.RevocationReasonCode.KEY_COMPROMISE";
-    "raise IllegalOperation <- if managed_object.state != enums.State.ACTIVE <- unless revocation_code.value is enums.RevocationReasonCode.KEY_COMPROMISE";
-    "set managed_object.state = enums.State.DEACTIVATED <- unless managed_object.state != enums.State.ACTIVE <- unless revocation_code.value is enums.RevocationReasonCode.KEY_COMPROMISE";
-    "commit ";
-    "return "]);
+    "raise InvalidField & not (payload.revocation_reason and payload.revocation_reason.revocation_code)";
+    "lookup unique_identifier as enums.Operation.REVOKE & payload.revocation_reason & payload.revocation_reason.revocation_code";
+    "raise IllegalOperation & payload.revocation_reason & payload.revocation_reason.revocation_code & not (hasattr(managed_object, 'state'))";
+    "set managed_object.state = enums.State.DESTROYED_COMPROMISED & payload.revocation_reason & payload.revocation_reason.revocation_code & hasattr(managed_object, 'state') & payload.revocation_reason.revocation_code.value is enums.RevocationReasonCode.KEY_COMPROMISE & managed_object.state == enums.State.DESTROYED";
+    "set managed_object.state = enums.State.COMPROMISED & payload.revocation_reason & payload.revocation_reason.revocation_code & hasattr(managed_object, 'state') & payload.revocation_reason.revocation_code.value is enums.RevocationReasonCode.KEY_COMPROMISE & not (managed_object.state == enums.State.DESTROYED)";
+    "raise IllegalOperation & payload.revocation_reason & payload.revocation_reason.revocation_code & hasattr(managed_object, 'state') & not (payload.revocation_reason.revocation_code.value is enums.RevocationReasonCode.KEY_COMPROMISE) & not (managed_object.state == enums.State.ACTIVE)";
+    "set managed_object.state = enums.State.DEACTIVATED & payload.revocation_reason & payload.revocation_reason.revocation_code & hasattr(managed_object, 'state') & not (payload.revocation_reason.revocation_code.value is enums.RevocationReasonCode.KEY_COMPROMISE) & managed_object.state == enums.State.ACTIVE";
+    "commit & payload.revocation_reason & payload.revocation_reason.revocation_code & hasattr(managed_object, 'state')";
+    "return & payload.revocation_reason & payload.revocation_reason.revocation_code & hasattr(managed_object, 'state')"]);
   (* Model.step, Destroy: lookup; Active -> RState PermissionDenied; remove (the Compromised -> DestroyedCompromised assignment precedes the deletion of the row and is not observable) *)
   ("_process_destroy", [
     "lookup unique_identifier as enums.Operation.DESTROY";
-    "raise PermissionDenied <- if managed_object.state == enums.State.ACTIVE <- if hasattr(managed_object, 'state')";
-    "set managed_object.state = enums.State.DESTROYED_COMPROMISED <- if hasattr(managed_object, 'state') and managed_object.state == enums.State.COMPROMISED";
+    "raise PermissionDenied & hasattr(managed_object, 'state') & managed_object.state == enums.State.ACTIVE";
+    "set managed_object.state = enums.State.DESTROYED_COMPROMISED & hasattr(managed_object, 'state') & managed_object.state == enums.State.COMPROMISED";
     "delete self._data_session.query(objects.ManagedObject).filter(objec";
-    "commit ";
-    "return "]);
+    "commit";
+    "return"]);
   (* Model.use_key SymmetricKey bENCRYPT: lookup; params; type; state; mask; crypto *)
   ("_process_encrypt", [
     "lookup unique_identifier as enums.Operation.GET";
-    "raise InvalidField <- if cryptographic_parameters is None";
-    "raise PermissionDenied <- if managed_object._object_type != enums.ObjectType.SYMMETRIC_KEY";
-    "raise PermissionDenied <- if managed_object.state != enums.State.ACTIVE";
-    "let masks = managed_object.cryptographic_usage_masks";
-    "raise PermissionDenied <- if enums.CryptographicUsageMask.ENCRYPT not in masks";
-    "crypto encrypt";
-    "return "]);
+    "raise InvalidField & payload.cryptographic_parameters is None";
+    "raise PermissionDenied & not (payload.cryptographic_parameters is None) & not (managed_object._object_type == enums.ObjectType.SYMMETRIC_KEY)";
+    "raise PermissionDenied & not (payload.cryptographic_parameters is None) & managed_object._object_type == enums.ObjectType.SYMMETRIC_KEY & not (managed_object.state == enums.State.ACTIVE)";
+    "raise PermissionDenied & not (payload.cryptographic_parameters is None) & managed_object._object_type == enums.ObjectType.SYMMETRIC_KEY & managed_object.state == enums.State.ACTIVE & not (enums.CryptographicUsageMask.ENCRYPT in managed_object.cryptographic_usage_masks)";
+    "crypto encrypt & not (payload.cryptographic_parameters is None) & managed_object._object_type == enums.ObjectType.SYMMETRIC_KEY & managed_object.state == enums.State.ACTIVE & enums.CryptographicUsageMask.ENCRYPT in managed_object.cryptographic_usage_masks";
+    "return & not (payload.cryptographic_parameters is None) & managed_object._object_type == enums.ObjectType.SYMMETRIC_KEY & managed_object.state == enums.State.ACTIVE & enums.CryptographicUsageMask.ENCRYPT in managed_object.cryptographic_usage_masks"]);
   (* Model.use_key SymmetricKey bDECRYPT *)
   ("_process_decrypt", [
     "lookup unique_identifier as enums.Operation.GET";
-    "raise InvalidField <- if cryptographic_parameters is None";
-    "raise PermissionDenied <- if managed_object._object_type != enums.ObjectType.SYMMETRIC_KEY";
-    "raise PermissionDenied <- if managed_object.state != enums.State.ACTIVE";
-    "let masks = managed_object.cryptographic_usage_masks";
-    "raise PermissionDenied <- if enums.CryptographicUsageMask.DECRYPT not in masks";
-    "crypto decrypt";
-    "return "]);
+    "raise InvalidField & payload.cryptographic_parameters is None";
+    "raise PermissionDenied & not (payload.cryptographic_parameters is None) & not (managed_object._object_type == enums.ObjectType.SYMMETRIC_KEY)";
+    "raise PermissionDenied & not (payload.cryptographic_parameters is None) & managed_object._object_type == enums.ObjectType.SYMMETRIC_KEY & not (managed_object.state == enums.State.ACTIVE)";
+    "raise PermissionDenied & not (payload.cryptographic_parameters is None) & managed_object._object_type == enums.ObjectType.SYMMETRIC_KEY & managed_object.state == enums.State.ACTIVE & not (enums.CryptographicUsageMask.DECRYPT in managed_object.cryptographic_usage_masks)";
+    "crypto decrypt & not (payload.cryptographic_parameters is None) & managed_object._object_type == enums.ObjectType.SYMMETRIC_KEY & managed_object.state == enums.State.ACTIVE & enums.CryptographicUsageMask.DECRYPT in managed_object.cryptographic_usage_masks";
+    "return & not (payload.cryptographic_parameters is None) & managed_object._object_type == enums.ObjectType.SYMMETRIC_KEY & managed_object.state == enums.State.ACTIVE & enums.CryptographicUsageMask.DECRYPT in managed_object.cryptographic_usage_masks"]);
   (* Model.use_key PublicKey bVERIFY *)
   ("_process_signature_verify", [
     "lookup unique_identifier as enums.Operation.GET";
-    "raise InvalidField <- if parameters is None";
-    "raise PermissionDenied <- if managed_object._object_type != enums.ObjectType.PUBLIC_KEY";
-    "raise PermissionDenied <- if managed_object.state != enums.State.ACTIVE";
-    "let masks = managed_object.cryptographic_usage_masks";
-    "raise PermissionDenied <- if enums.CryptographicUsageMask.VERIFY not in masks";
-    "crypto verify_signature";
-    "return "]);
+    "raise InvalidField & payload.cryptographic_parameters is None";
+    "raise PermissionDenied & not (payload.cryptographic_parameters is None) & not (managed_object._object_type == enums.ObjectType.PUBLIC_KEY)";
+    "raise PermissionDenied & not (payload.cryptographic_parameters is None) & managed_object._object_type == enums.ObjectType.PUBLIC_KEY & not (managed_object.state == enums.State.ACTIVE)";
+    "raise PermissionDenied & not (payload.cryptographic_parameters is None) & managed_object._object_type == enums.ObjectType.PUBLIC_KEY & managed_object.state == enums.State.ACTIVE & not (enums.CryptographicUsageMask.VERIFY in managed_object.cryptographic_usage_masks)";
+    "crypto verify_signature & not (payload.cryptographic_parameters is None) & managed_object._object_type == enums.ObjectType.PUBLIC_KEY & managed_object.state == enums.State.ACTIVE & enums.CryptographicUsageMask.VERIFY in managed_object.cryptographic_usage_masks";
+    "return & not (payload.cryptographic_parameters is None) & managed_object._object_type == enums.ObjectType.PUBLIC_KEY & managed_object.state == enums.State.ACTIVE & enums.CryptographicUsageMask.VERIFY in managed_object.cryptographic_usage_masks"]);
   (* Model.step, MAC: lookup; algorithm (given or a Key); value (assumed non-empty); data; type SymmetricKey|SecretData -> RType PermissionDenied (since d24c06a); state; mask; crypto *)
   ("_process_mac", [
     "lookup unique_identifier as enums.Operation.GET";
-    "raise PermissionDenied <- unless isinstance(managed_object, objects.Key) and managed_object.cryptographic_algorithm <- unless payload.cryptographic_parameters and payload.cryptographic_parameters.cryptographic_algorithm";
-    "raise PermissionDenied <- unless managed_object.value";
-    "raise PermissionDenied <- unless payload.data";
-    "raise PermissionDenied <- if managed_object._object_type not in [enums.ObjectType.SYMMETRIC_KEY, enums.ObjectType.SECRET_DATA]";
-    "raise PermissionDenied <- if managed_object.state != enums.State.ACTIVE";
-    "let masks = managed_object.cryptographic_usage_masks";
-    "raise PermissionDenied <- if enums.CryptographicUsageMask.MAC_GENERATE not in masks";
-    "crypto mac";
-    "return "]);
+    "raise PermissionDenied & not (payload.cryptographic_parameters and payload.cryptographic_parameters.cryptographic_algorithm) & not (isinstance(managed_object, objects.Key) and managed_object.cryptographic_algorithm)";
+    "raise PermissionDenied & not (managed_object.value)";
+    "raise PermissionDenied & managed_object.value & not (payload.data)";
+    "raise PermissionDenied & managed_object.value & payload.data & not (managed_object._object_type in [enums.ObjectType.SYMMETRIC_KEY, enums.ObjectType.SECRET_DATA])";
+    "raise PermissionDenied & managed_object.value & payload.data & managed_object._object_type in [enums.ObjectType.SYMMETRIC_KEY, enums.ObjectType.SECRET_DATA] & not (managed_object.state == enums.State.ACTIVE)";
+    "raise PermissionDenied & managed_object.value & payload.data & managed_object._object_type in [enums.ObjectType.SYMMETRIC_KEY, enums.ObjectType.SECRET_DATA] & managed_object.state == enums.State.ACTIVE & not (enums.CryptographicUsageMask.MAC_GENERATE in managed_object.cryptographic_usage_masks)";
+    "crypto mac & managed_object.value & payload.data & managed_object._object_type in [enums.ObjectType.SYMMETRIC_KEY, enums.ObjectType.SECRET_DATA] & managed_object.state == enums.State.ACTIVE & enums.CryptographicUsageMask.MAC_GENERATE in managed_object.cryptographic_usage_masks";
+    "return & managed_object.value & payload.data & managed_object._object_type in [enums.ObjectType.SYMMETRIC_KEY, enums.ObjectType.SECRET_DATA] & managed_object.state == enums.State.ACTIVE & enums.CryptographicUsageMask.MAC_GENERATE in managed_object.cryptographic_usage_masks"]);
   (* Model.use_key PrivateKey bSIGN *)
   ("_process_sign", [
     "lookup unique_identifier as enums.Operation.GET";
-    "raise InvalidField <- if parameters is None";
-    "raise PermissionDenied <- if managed_object._object_type != enums.ObjectType.PRIVATE_KEY";
-    "raise PermissionDenied <- if managed_object.state != enums.State.ACTIVE";
-    "let masks = managed_object.cryptographic_usage_masks";
-    "raise PermissionDenied <- if enums.CryptographicUsageMask.SIGN not in masks";
-    "crypto sign";
-    "return "]);
+    "raise InvalidField & payload.cryptographic_parameters is None";
+    "raise PermissionDenied & not (payload.cryptographic_parameters is None) & not (managed_object._object_type == enums.ObjectType.PRIVATE_KEY)";
+    "raise PermissionDenied & not (payload.cryptographic_parameters is None) & managed_object._object_type == enums.ObjectType.PRIVATE_KEY & not (managed_object.state == enums.State.ACTIVE)";
+    "raise PermissionDenied & not (payload.cryptographic_parameters is None) & managed_object._object_type == enums.ObjectType.PRIVATE_KEY & managed_object.state == enums.State.ACTIVE & not (enums.CryptographicUsageMask.SIGN in managed_object.cryptographic_usage_masks)";
+    "crypto sign & not (payload.cryptographic_parameters is None) & managed_object._object_type == enums.ObjectType.PRIVATE_KEY & managed_object.state == enums.State.ACTIVE & enums.CryptographicUsageMask.SIGN in managed_object.cryptographic_usage_masks";
+    "return & not (payload.cryptographic_parameters is None) & managed_object._object_type == enums.ObjectType.PRIVATE_KEY & managed_object.state == enums.State.ACTIVE & enums.CryptographicUsageMask.SIGN in managed_object.cryptographic_usage_masks"]);
   (* Model.derive_bases + step DeriveKey: per base object lookup; type -> RType InvalidField; mask -> RMask InvalidField; NO state guard; existing_objects[0] on an empty list -> CrashBefore; the template/length/parameter refusals are outside the model (well-formed requests); crypto; new SymmetricKey *)
   ("_process_derive_key", [
-    "raise InvalidField <- if payload.object_type not in [enums.ObjectType.SYMMETRIC_KEY, enums.ObjectType.SECRET_DATA]";
-    "lookup unique_identifier as enums.Operation.GET <- for unique_identifier in payload.unique_identifiers";
-    "raise InvalidField <- if managed_object._object_type not in [enums.ObjectType.SECRET_DATA, enums.ObjectType.SYMMETRIC_KEY, enums.ObjectType.PUBLIC_KEY, enums.ObjectType.PRIVATE_KEY] <- for unique_identifier in payload.unique_identifiers";
-    "raise InvalidField <- if enums.CryptographicUsageMask.DERIVE_KEY not in managed_object.cryptographic_usage_masks <- unless managed_object._object_type not in [enums.ObjectType.SECRET_DATA, enums.ObjectType.SYMMETRIC_KEY, enums.ObjectType.PUBLIC_KEY, enums.ObjectType.PRIVATE_KEY] <- for unique_identifier in payload.unique_identifiers";
-    "break  <- if alternate._object_type == enums.ObjectType.SECRET_DATA <- for alternate in existing_objects[1:] <- if len(existing_objects) > 1 <- if derivation_parameters.derivation_data is None";
-    "raise InvalidField <- unless derivation_length % 8 == 0 <- if attribute";
-    "raise InvalidField <- unless attribute";
-    "raise InvalidField <- unless attribute <- if payload.object_type == enums.ObjectType.SYMMETRIC_KEY";
-    "raise InvalidField <- if crypto_parameters is None";
-    "crypto derive_key";
-    "raise CryptographicFailure <- if derivation_length > len(derived_data)";
-    "commit ";
-    "return "]);
+    "raise InvalidField & not (payload.object_type in [enums.ObjectType.SYMMETRIC_KEY, enums.ObjectType.SECRET_DATA])";
+    "lookup unique_identifier as enums.Operation.GET & payload.object_type in [enums.ObjectType.SYMMETRIC_KEY, enums.ObjectType.SECRET_DATA] & <for unique_identifier in payload.unique_identifiers>";
+    "raise InvalidField & payload.object_type in [enums.ObjectType.SYMMETRIC_KEY, enums.ObjectType.SECRET_DATA] & <for unique_identifier in payload.unique_identifiers> & not (managed_object._object_type in [enums.ObjectType.SECRET_DATA, enums.ObjectType.SYMMETRIC_KEY, enums.ObjectType.PUBLIC_KEY, enums.ObjectType.PRIVATE_KEY])";
+    "raise InvalidField & payload.object_type in [enums.ObjectType.SYMMETRIC_KEY, enums.ObjectType.SECRET_DATA] & <for unique_identifier in payload.unique_identifiers> & managed_object._object_type in [enums.ObjectType.SECRET_DATA, enums.ObjectType.SYMMETRIC_KEY, enums.ObjectType.PUBLIC_KEY, enums.ObjectType.PRIVATE_KEY] & not (enums.CryptographicUsageMask.DERIVE_KEY in managed_object.cryptographic_usage_masks)";
+    "break & payload.object_type in [enums.ObjectType.SYMMETRIC_KEY, enums.ObjectType.SECRET_DATA] & payload.derivation_parameters.derivation_data is None & len(existing_objects) > 1 & <for alternate in existing_objects[1:]> & alternate._object_type == enums.ObjectType.SECRET_DATA";
+    "raise InvalidField & payload.object_type in [enums.ObjectType.SYMMETRIC_KEY, enums.ObjectType.SECRET_DATA] & not (attribute)";
+    "raise InvalidField & payload.object_type in [enums.ObjectType.SYMMETRIC_KEY, enums.ObjectType.SECRET_DATA] & attribute & not (derivation_length % 8 == 0)";
+    "raise InvalidField & payload.object_type in [enums.ObjectType.SYMMETRIC_KEY, enums.ObjectType.SECRET_DATA] & attribute & payload.object_type == enums.ObjectType.SYMMETRIC_KEY & not (attribute)";
+    "raise InvalidField & payload.object_type in [enums.ObjectType.SYMMETRIC_KEY, enums.ObjectType.SECRET_DATA] & attribute & payload.derivation_parameters.cryptographic_parameters is None";
+    "crypto derive_key & payload.object_type in [enums.ObjectType.SYMMETRIC_KEY, enums.ObjectType.SECRET_DATA] & attribute & not (payload.derivation_parameters.cryptographic_parameters is None)";
+    "raise CryptographicFailure & payload.object_type in [enums.ObjectType.SYMMETRIC_KEY, enums.ObjectType.SECRET_DATA] & attribute & not (payload.derivation_parameters.cryptographic_parameters is None) & derivation_length > len(derived_data)";
+    "commit & payload.object_type in [enums.ObjectType.SYMMETRIC_KEY, enums.ObjectType.SECRET_DATA] & attribute & not (payload.derivation_parameters.cryptographic_parameters is None) & not (derivation_length > len(derived_data))";
+    "return & payload.object_type in [enums.ObjectType.SYMMETRIC_KEY, enums.ObjectType.SECRET_DATA] & attribute & not (payload.derivation_parameters.cryptographic_parameters is None) & not (derivation_length > len(derived_data))"]);
   (* Model.step, GetWrap (requests with wrapping method ENCRYPT, encryption key information with cryptographic parameters, no attribute names, NO_ENCODING): lookup target; wrapping key lookup, any exception -> RWrapKeyMissing ItemNotFound; type -> RType IllegalOperation; state -> RState PermissionDenied; mask -> RMask PermissionDenied; wrapped object not a key / secret data -> RType IllegalOperation (since 3da5f5b); crypto *)
   ("_process_get", [
-    "raise KeyCompressionTypeNotSupported <- if payload.key_compression_type";
-    "lookup unique_identifier as enums.Operation.GET";
-    "raise KeyFormatTypeNotSupported <- if not hasattr(managed_object, 'key_format_type') <- if key_format_type";
-    "raise KeyFormatTypeNotSupported <- if key_format_type != managed_object.key_format_type <- if key_format_type";
-    "raise OperationNotSupported <- if wrapping_method != enums.WrappingMethod.ENCRYPT <- if payload.key_wrapping_specification";
-    "lookup encryption_key_uuid as enums.Operation.GET <- try <- if key_wrapping_spec.encryption_key_information <- if payload.key_wrapping_specification";
-    "raise ItemNotFound <- except Exception <- if key_wrapping_spec.encryption_key_information <- if payload.key_wrapping_specification";
-    "raise IllegalOperation <- if key._object_type != enums.ObjectType.SYMMETRIC_KEY <- if key_wrapping_spec.encryption_key_information <- if payload.key_wrapping_specification";
-    "raise PermissionDenied <- if key.state != enums.State.ACTIVE <- if key_wrapping_spec.encryption_key_information <- if payload.key_wrapping_specification";
-    "let mask = enums.CryptographicUsageMask.WRAP_KEY <- if key_wrapping_spec.encryption_key_information <- if payload.key_wrapping_specification";
-    "raise PermissionDenied <- if mask not in key.cryptographic_usage_masks <- if key_wrapping_spec.encryption_key_information <- if payload.key_wrapping_specification";
-    "raise IllegalOperation <- if key_wrapping_spec.attribute_names <- if key_wrapping_spec.encryption_key_information <- if payload.key_wrapping_specification";
-    "raise EncodingOptionError <- if encoding_option != enums.EncodingOption.NO_ENCODING <- if key_wrapping_spec.encryption_key_information <- if payload.key_wrapping_specification";
-    "raise InvalidField <- if encryption_key_params is None <- if key_wrapping_spec.encryption_key_information <- if payload.key_wrapping_specification";
-    "raise IllegalOperation <- if managed_object._object_type not in [enums.ObjectType.SYMMETRIC_KEY, enums.ObjectType.PUBLIC_KEY, enums.ObjectType.PRIVATE_KEY, enums.ObjectType.SPLIT_KEY, enums.ObjectType.SECRET_DATA] <- if key_wrapping_spec.encryption_key_information <- if payload.key_wrapping_specification";
-    "crypto wrap_key <- if key_wrapping_spec.encryption_key_information <- if payload.key_wrapping_specification";
-    "raise PermissionDenied <- if key_wrapping_spec.mac_signature_key_information <- unless key_wrapping_spec.encryption_key_information <- if payload.key_wrapping_specification";
-    "raise PermissionDenied <- unless key_wrapping_spec.mac_signature_key_information <- unless key_wrapping_spec.encryption_key_information <- if payload.key_wrapping_specification";
-    "let response_payload = payloads.GetResponsePayload(object_type=managed_object._object_type, unique_identifier=unique_identifier, secret=core_se";
-    "return "]);
+    "raise KeyCompressionTypeNotSupported & payload.key_compression_type";
+    "lookup unique_identifier as enums.Operation.GET & not (payload.key_compression_type)";
+    "raise KeyFormatTypeNotSupported & not (payload.key_compression_type) & key_format_type & not (hasattr(managed_object, 'key_format_type'))";
+    "raise KeyFormatTypeNotSupported & not (payload.key_compression_type) & key_format_type & hasattr(managed_object, 'key_format_type') & not (key_format_type == managed_object.key_format_type)";
+    "raise OperationNotSupported & not (payload.key_compression_type) & payload.key_wrapping_specification & not (payload.key_wrapping_specification.wrapping_method == enums.WrappingMethod.ENCRYPT)";
+    "raise PermissionDenied & not (payload.key_compression_type) & payload.key_wrapping_specification & payload.key_wrapping_specification.wrapping_method == enums.WrappingMethod.ENCRYPT & not (payload.key_wrapping_specification.encryption_key_information) & payload.key_wrapping_specification.mac_signature_key_information";
+    "raise PermissionDenied & not (payload.key_compression_type) & payload.key_wrapping_specification & payload.key_wrapping_specification.wrapping_method == enums.WrappingMethod.ENCRYPT & not (payload.key_wrapping_specification.encryption_key_information) & not (payload.key_wrapping_specification.mac_signature_key_information)";
+    "lookup payload.key_wrapping_specification.encryption_key_information.unique_identifier as enums.Operation.GET & not (payload.key_compression_type) & payload.key_wrapping_specification & payload.key_wrapping_specification.wrapping_method == enums.WrappingMethod.ENCRYPT & payload.key_wrapping_specification.encryption_key_information & <try>";
+    "raise ItemNotFound & not (payload.key_compression_type) & payload.key_wrapping_specification & payload.key_wrapping_specification.wrapping_method == enums.WrappingMethod.ENCRYPT & payload.key_wrapping_specification.encryption_key_information & <except Exception>";
+    "raise IllegalOperation & not (payload.key_compression_type) & payload.key_wrapping_specification & payload.key_wrapping_specification.wrapping_method == enums.WrappingMethod.ENCRYPT & payload.key_wrapping_specification.encryption_key_information & not (key._object_type == enums.ObjectType.SYMMETRIC_KEY)";
+    "raise PermissionDenied & not (payload.key_compression_type) & payload.key_wrapping_specification & payload.key_wrapping_specification.wrapping_method == enums.WrappingMethod.ENCRYPT & payload.key_wrapping_specification.encryption_key_information & key._object_type == enums.ObjectType.SYMMETRIC_KEY & not (key.state == enums.State.ACTIVE)";
+    "raise PermissionDenied & not (payload.key_compression_type) & payload.key_wrapping_specification & payload.key_wrapping_specification.wrapping_method == enums.WrappingMethod.ENCRYPT & payload.key_wrapping_specification.encryption_key_information & key._object_type == enums.ObjectType.SYMMETRIC_KEY & key.state == enums.State.ACTIVE & not (enums.CryptographicUsageMask.WRAP_KEY in key.cryptographic_usage_masks)";
+    "raise IllegalOperation & not (payload.key_compression_type) & payload.key_wrapping_specification & payload.key_wrapping_specification.wrapping_method == enums.WrappingMethod.ENCRYPT & payload.key_wrapping_specification.encryption_key_information & key._object_type == enums.ObjectType.SYMMETRIC_KEY & key.state == enums.State.ACTIVE & enums.CryptographicUsageMask.WRAP_KEY in key.cryptographic_usage_masks & payload.key_wrapping_specification.attribute_names";
+    "raise EncodingOptionError & not (payload.key_compression_type) & payload.key_wrapping_specification & payload.key_wrapping_specification.wrapping_method == enums.WrappingMethod.ENCRYPT & payload.key_wrapping_specification.encryption_key_information & key._object_type == enums.ObjectType.SYMMETRIC_KEY & key.state == enums.State.ACTIVE & enums.CryptographicUsageMask.WRAP_KEY in key.cryptographic_usage_masks & not (payload.key_wrapping_specification.attribute_names) & not (payload.key_wrapping_specification.encoding_option == enums.EncodingOption.NO_ENCODING)";
+    "raise InvalidField & not (payload.key_compression_type) & payload.key_wrapping_specification & payload.key_wrapping_specification.wrapping_method == enums.WrappingMethod.ENCRYPT & payload.key_wrapping_specification.encryption_key_information & key._object_type == enums.ObjectType.SYMMETRIC_KEY & key.state == enums.State.ACTIVE & enums.CryptographicUsageMask.WRAP_KEY in key.cryptographic_usage_masks & not (payload.key_wrapping_specification.attribute_names) & payload.key_wrapping_specification.encoding_option == enums.EncodingOption.NO_ENCODING & payload.key_wrapping_specification.encryption_key_information.cryptographic_parameters is None";
+    "raise IllegalOperation & not (payload.key_compression_type) & payload.key_wrapping_specification & payload.key_wrapping_specification.wrapping_method == enums.WrappingMethod.ENCRYPT & payload.key_wrapping_specification.encryption_key_information & key._object_type == enums.ObjectType.SYMMETRIC_KEY & key.state == enums.State.ACTIVE & enums.CryptographicUsageMask.WRAP_KEY in key.cryptographic_usage_masks & not (payload.key_wrapping_specification.attribute_names) & payload.key_wrapping_specification.encoding_option == enums.EncodingOption.NO_ENCODING & not (payload.key_wrapping_specification.encryption_key_information.cryptographic_parameters is None) & not (managed_object._object_type in [enums.ObjectType.SYMMETRIC_KEY, enums.ObjectType.PUBLIC_KEY, enums.ObjectType.PRIVATE_KEY, enums.ObjectType.SPLIT_KEY, enums.ObjectType.SECRET_DATA])";
+    "crypto wrap_key & not (payload.key_compression_type) & payload.key_wrapping_specification & payload.key_wrapping_specification.wrapping_method == enums.WrappingMethod.ENCRYPT & payload.key_wrapping_specification.encryption_key_information & key._object_type == enums.ObjectType.SYMMETRIC_KEY & key.state == enums.State.ACTIVE & enums.CryptographicUsageMask.WRAP_KEY in key.cryptographic_usage_masks & not (payload.key_wrapping_specification.attribute_names) & payload.key_wrapping_specification.encoding_option == enums.EncodingOption.NO_ENCODING & not (payload.key_wrapping_specification.encryption_key_information.cryptographic_parameters is None) & managed_object._object_type in [enums.ObjectType.SYMMETRIC_KEY, enums.ObjectType.PUBLIC_KEY, enums.ObjectType.PRIVATE_KEY, enums.ObjectType.SPLIT_KEY, enums.ObjectType.SECRET_DATA]";
+    "return & not (payload.key_compression_type)"]);
   (* Model.lookup: under the single owning identity the policy check always allows *)
   ("_get_object_with_access_controls", [
     "call _get_object_type";
     "call one";
     "call _is_allowed_by_operation_policy";
-    "raise PermissionDenied <- if not is_allowed";
-    "return "]);
+    "raise PermissionDenied & not (is_allowed)";
+    "return & is_allowed"]);
   (* Model.lookup = None -> RNotFound ItemNotFound *)
   ("_get_object_type", [
-    "call one <- try";
-    "let object_type = self._data_session.query(objects.ManagedObject._object_type).filter(objects.ManagedObject.unique_identifier == unique_id <- try";
-    "raise ItemNotFound <- except exc.NoResultFound";
-    "reraise e <- except exc.MultipleResultsFound as e";
-    "raise InvalidField <- if class_type is None";
-    "return "])
+    "call one & <try>";
+    "raise ItemNotFound & <except exc.NoResultFound>";
+    "reraise e & <except exc.MultipleResultsFound as e>";
+    "raise InvalidField & class_type is None";
+    "return & not (class_type is None)"])
 ].
